@@ -76,6 +76,9 @@ func judge(s *Spec, sim *simResult, o *observed, b *built, sref *staticRef) verd
 		if ff != nil {
 			return verdict{Info: "expected-error", Fail: ff}
 		}
+		if len(sim.Soft) > 0 {
+			return verdict{Info: "expected-error-soft", Fail: &sim.Soft[0]}
+		}
 		return verdict{Class: "spurious-error", Text: fmt.Sprintf("%s failed although every value is assignable where it arrives: %.300s", o.Mode, o.Err.Error())}
 	}
 }
@@ -275,7 +278,12 @@ func shrinkCandidates(s *Spec) []*Spec {
 		dec(func(n *Spec) bool { x := &n.Nodes[i]; ok := x.InKey != ""; x.InKey = ""; return ok })
 		dec(func(n *Spec) bool { x := &n.Nodes[i]; ok := x.OutKey != ""; x.OutKey = ""; return ok })
 		dec(func(n *Spec) bool { x := &n.Nodes[i]; ok := x.Echo; x.Echo = false; return ok })
-		dec(func(n *Spec) bool { x := &n.Nodes[i]; ok := x.Kind == kTrans; x.Kind = kInv; return ok && x.Kind == kInv })
+		dec(func(n *Spec) bool {
+			x := &n.Nodes[i]
+			ok := x.Kind == kTrans || x.Kind == kSub
+			x.Kind = kInv
+			return ok
+		})
 		dec(func(n *Spec) bool { x := &n.Nodes[i]; ok := x.Nil; x.Nil = false; return ok })
 		dec(func(n *Spec) bool { x := &n.Nodes[i]; ok := x.Pre >= 0 && x.PreConv > 0; x.PreConv = 0; return ok })
 		dec(func(n *Spec) bool { x := &n.Nodes[i]; ok := x.Post >= 0 && x.PostConv > 0; x.PostConv = 0; return ok })
@@ -304,6 +312,16 @@ func shrinkCandidates(s *Spec) []*Spec {
 		}
 		if n.Front == feWorkflow {
 			n.DAG = true // a workflow runs in all-predecessor mode
+			// and adds its branches before its connections
+			var br, ed []Call
+			for _, c := range n.Calls {
+				if c.Branch {
+					br = append(br, c)
+				} else {
+					ed = append(ed, c)
+				}
+			}
+			n.Calls = append(br, ed...)
 		}
 		n.Front = feGraph
 		return true
@@ -343,7 +361,25 @@ func shrink(s *Spec, policy int, class string, first *hit) (*Spec, *hit, int) {
 }
 
 // shapeOf names the feature of the minimal failing construction.
-func shapeOf(s *Spec, h *hit) string {
+// failingForms: in which forms (Invoke / Stream) does the construction show the class?
+func failingForms(s *Spec, policy int, class string) (invoke, stream bool) {
+	b := build(s, identity(len(s.Calls), policy))
+	if b.fns == nil {
+		return false, false
+	}
+	explore(s, b, refStatic(s), simCache{}, func(h hit) {
+		if h.V.Class == class {
+			if h.Obs.Mode == "invoke" {
+				invoke = true
+			} else {
+				stream = true
+			}
+		}
+	})
+	return
+}
+
+func shapeOf(s *Spec, h *hit, policy int) string {
 	// where does the mismatch materialise when pass-through nodes are transparent?
 	tr := simulate(s, paramsFor(s, h.Key), values[h.Key.In], nil)
 	// (the run stops at the first mismatch; only an accepted statically decidable
@@ -362,15 +398,19 @@ func shapeOf(s *Spec, h *hit) string {
 	if s.Front != feGraph {
 		front = "@" + frontNames[s.Front]
 	}
-	// a branch added on a pass-through node that already had a typed neighbour of
-	// another type: the one construction feature left that re-types an inferred node
-	for i, c := range s.Calls {
-		if n := s.node(c.From); c.Branch && n != nil && n.transparent() {
-			pre := s.clone()
-			pre.Calls = pre.Calls[:i]
-			for _, ct := range refStatic(pre).PassCands[c.From] {
-				if ct != c.Cond {
-					return "branch-retypes-inferred-passthrough"
+	// a branch on a pass-through node with an output key for which eino reports an inner
+	// type that no typed neighbour of the node has: the condition (which reads the map the
+	// node wraps its value in) typed the node's inside
+	for _, c := range s.Calls {
+		if n := s.node(c.From); c.Branch && n != nil && n.Kind == kPass && n.OutKey != "" {
+			b := build(s, identity(len(s.Calls), policy))
+			if t, ok := b.inferred[n.Key]; ok && t[0] >= 0 {
+				known := false
+				for _, ct := range refStatic(s).PassCands[n.Key] {
+					known = known || ct == t[0]
+				}
+				if !known {
+					return "branch-types-inside-of-keyed-passthrough" + front
 				}
 			}
 		}
@@ -383,7 +423,12 @@ func shapeOf(s *Spec, h *hit) string {
 	// handler; a handler that hands on another value than it received; a handler on a
 	// pass-through node that carries an input/output key
 	for i := range s.Nodes {
-		if n := &s.Nodes[i]; (n.Nil && isIface(n.Out)) || (n.Pre >= 0 && n.PreConv == 2 && isIface(n.Pre)) || (n.Post >= 0 && n.PostConv == 2 && isIface(n.Post)) {
+		if n := &s.Nodes[i]; n.emitsNil() || (n.Pre >= 0 && n.PreConv == 2 && isIface(n.Pre)) || (n.Post >= 0 && n.PostConv == 2 && isIface(n.Post)) {
+			// the value form trips over the nil value in the type assertions on node, branch
+			// and handler inputs, the stream form only in the conversion of streams
+			if inv, _ := failingForms(s, policy, h.V.Class); !inv {
+				return "nil-interface-value-in-stream" + front
+			}
 			return "nil-interface-value" + front
 		}
 	}
@@ -398,6 +443,19 @@ func shapeOf(s *Spec, h *hit) string {
 		if n := &s.Nodes[i]; n.Kind == kPass && (n.InKey != "" || n.OutKey != "") && (n.Pre >= 0 || n.Post >= 0) {
 			if f == nil || !handlerKind(f.Kind) {
 				return "state-handler-on-keyed-passthrough" + front
+			}
+		}
+	}
+	// a branch added on a pass-through node that already had a typed neighbour of
+	// another type: the one construction feature left that re-types an inferred node
+	for i, c := range s.Calls {
+		if n := s.node(c.From); c.Branch && n != nil && n.transparent() {
+			pre := s.clone()
+			pre.Calls = pre.Calls[:i]
+			for _, ct := range refStatic(pre).PassCands[c.From] {
+				if ct != c.Cond {
+					return "branch-retypes-inferred-passthrough" + front
+				}
 			}
 		}
 	}
@@ -496,13 +554,13 @@ func TestCheck(t *testing.T) {
 			"the reference lattice is what a type assertion accepts — identical type, or Implements for an interface target (must / may / must-not); distinct types with the same underlying type (map[string]any vs Vars, []string vs Names) are must-not, unlike reflect's AssignableTo; a connection is judged between the declared types of its two ends, a pass-through node carrying the type eino reports for it in GraphInfo provided that type is the type of a typed neighbour of the node's pass-through component (otherwise the node is transparent)",
 			"only soundness is judged: accepted ⇒ no panic, an ordinary error exactly when a dynamic value is not assignable across a may-connection; rejections of constructions the order-independent (transparent) reference considers well typed are only counted (info_completeness_*)",
 			"a nil interface value has no dynamic type and is not generated; runs whose failure would be legitimate for another reason (input key absent from the map, several non-map chunks to concatenate) are not generated or counted as unjudged",
-		}, cfg.Pick(80, 2000))
+		}, cfg.Pick(250, 6000))
 	defer func() {
 		if err := rep.Flush(); err != nil {
 			t.Fatalf("flush: %v", err)
 		}
 	}()
-	n := int64(cfg.Pick(120, 500))
+	n := int64(cfg.Pick(200, 2400))
 	rep.Cases(n, func(idx int64, rng *mon.Rand) {
 		runCase(rep, idx, rng)
 	})
@@ -563,7 +621,7 @@ func runCase(rep *mon.Reporter, idx int64, rng *mon.Rand) {
 	cache := simCache{}
 	accepted, rejected := 0, 0
 	typings := map[string]bool{} // distinct inferred typings of the pass-through nodes over all accepted attempts
-	done := map[string]string{} // violation key -> signature (shrunk once per case)
+	done := map[string]string{}  // violation key -> signature (shrunk once per case)
 	for oi, ord := range orders {
 		a := attempt{Order: ord, Policy: oi % 3}
 		rep.Distinct("orders", s.String()+fmt.Sprint(ord, a.Policy))
@@ -633,6 +691,8 @@ func runCase(rep *mon.Reporter, idx int64, rng *mon.Rand) {
 						if h.V.Fail.ViaPass || h.V.Fail.OnPass || h.V.Fail.Kind == "passthrough-input" {
 							rep.Count("runs_expected_error_through_passthrough", 1)
 						}
+					case "expected-error-soft":
+						rep.Count("runs_error_on_the_data_connection_to_an_unchosen_workflow_branch_end", 1)
 					case "unjudged":
 						rep.Count("runs_unjudged", 1)
 					case "skipped":
@@ -699,7 +759,7 @@ func report(rep *mon.Reporter, s *Spec, a attempt, h hit, done map[string]string
 		rep.Count("info_violation_not_reproduced_on_rebuild", 1)
 	}
 	rep.Count("shrink_evaluations", int64(evals))
-	shape := shapeOf(min, mh)
+	shape := shapeOf(min, mh, na.Policy)
 	sig := "C07/" + mh.V.Class + "/" + shape
 	done[key] = sig
 	var calls []string
